@@ -1,5 +1,8 @@
 import Props.C04
+import Props.C06
+import Props.C07
 import Props.C13
 import Props.C15
 import Props.C16
 import Props.C17
+import Props.C20
